@@ -576,6 +576,7 @@ func (ex *Exec) mutexLock(fr *frame, m *value) {
 	if m == nil {
 		fr.rtPanic("nil", "nil *sync.Mutex")
 	}
+	ex.noteWrite(fr, m)
 	if ex.hooks != nil {
 		ex.hooks.lock(fr, m)
 		return
